@@ -31,7 +31,7 @@ LEVEL_NOTE = ('Grids are pairwise non-degenerate by construction and the referen
 RULE = ("cases: package configurations; executions: one whole pipeline run (data file with all plants of the configuration) and one evaluation per planted source; non-trivial = "
         "distinct (configuration, planted model, A_V0, distance) with a non-identity parameter table or a multi-aperture package")
 ASSUMPTIONS = ["pairwise non-degenerate model grids (margin measured by the reference)", "photometric errors equal relative size on all bands"]
-REQUIRED_CLASSES = ['mode-2d', 'mode-3d', 'fmt-v1', 'fmt-v2', 'planted-at-av-range-end', 'planted-first-distance', 'planted-last-distance', 'permuted-table', 'listing-first-row', 'seds-on-different-grids', 'dead-model-in-package', 'plot-only-band-with-wrong-value', 'seds-stored-in-Jy', 'pipeline-run-twice', 'distance-range-in-pc', 'object-result-after-other-package', 'layout-changed-between-convolutions']
+REQUIRED_CLASSES = ['package-of-100-models', 'two-packages-under-one-relative-path', 'mode-2d', 'mode-3d', 'fmt-v1', 'fmt-v2', 'planted-at-av-range-end', 'planted-first-distance', 'planted-last-distance', 'permuted-table', 'listing-first-row', 'seds-on-different-grids', 'dead-model-in-package', 'plot-only-band-with-wrong-value', 'seds-stored-in-Jy', 'pipeline-run-twice', 'distance-range-in-pc', 'object-result-after-other-package', 'layout-changed-between-convolutions']
 TIMEOUT = {'quick': 600, 'thorough': 3000}
 
 AXES = {'fmt': ['v1', 'v2'], 'n_ap': [3, 1], 'n_models': [4, 2, 6], 'perm': ['rotated', 'identity', 'reversed'], 'sord': ['wav-desc', 'wav-asc'], 'rel': [0.01, 0.1], 'grids': ['same', 'interior'], 'dead': [False, True], 'funit': ['mJy', 'Jy'], 'dunit': ['kpc', 'pc']}
@@ -39,6 +39,11 @@ AXES = {'fmt': ['v1', 'v2'], 'n_ap': [3, 1], 'n_models': [4, 2, 6], 'perm': ['ro
 
 def setup(tier, seed):
     cfgs = [c for c in deviation_bounded(AXES, 2 if tier == 'quick' else 3)]
+    # scale: a hundred models and more (blocks, row indices, names filling the column), planted at the first, last and the models around position 64
+    default = {k: v[0] for k, v in AXES.items()}
+    for fmt in ('v1', 'v2'):
+        for n_ap in (3, 1):
+            cfgs.append(dict(default, fmt=fmt, n_ap=n_ap, n_models=100 if tier == 'quick' else 200, _deviations=0 if fmt == 'v1' else 1))
     return {'tier': tier, 'seed': seed, 'cases': cfgs}
 
 
@@ -111,6 +116,9 @@ def run_case(ctx, case, rec, d):
     plants = []
     lines = []
     live = [m for m in range(n_models) if not (case['dead'] and m == n_models - 1)]
+    if n_models > 8:
+        live = [m for m in (0, 1, 63, 64, 65, n_models - 2, n_models - 1) if m in live]
+        rec.cls('package-of-100-models')
     with np.errstate(divide='ignore'):
         if mode == '3d':
             logm3 = np.where(np.isfinite(logm3), logm3, -300.0)
@@ -192,35 +200,60 @@ def run_case(ctx, case, rec, d):
         from mc.runner import exc_signature
         rec.violation('pipeline|second-run|' + exc_signature(e), {'stage': 'fit again'}, {'type': type(e).__name__, 'msg': str(e)[:300]})
     # ---- the object interface: fit a planted source with a Fitter, fit another package (same model names, other parameter
-    # file) with a second Fitter, then list the FIRST result: it must show the first package's parameter row
+    # file) with a second Fitter, then list both results: each must show its own package's parameter row.  In every other
+    # configuration the two packages are addressed by the SAME relative path ('pkg') from two working directories.
+    cwd0 = os.getcwd()
     try:
         from sedfitter.fit import Fitter
-        fa = Fitter(list(bands), theta * u.arcsec, pk['md'], extinction_law=law, av_range=[avlo, avhi], distance_range=np.array([dmin, dmax]) * u.kpc)
+        relative = (case.get('_deviations', 0) % 2 == 0)
+        if relative:
+            os.chdir(d)
+            rec.cls('two-packages-under-one-relative-path')
+        md_a = 'pkg' if relative else pk['md']
+        fa = Fitter(list(bands), theta * u.arcsec, md_a, extinction_law=law, av_range=[avlo, avhi], distance_range=np.array([dmin, dmax]) * u.kpc)
         p0 = plants[len(plants) // 2]
         s0 = Source()
         s0.name, s0.x, s0.y = 'objplant', 1.0, 2.0
         s0.valid = np.array(p0['flags'])
         s0.flux, s0.error = p0['flux'], p0['err']
         info_a = fa.fit(s0)
-        pk_b = sp.build(d, 'pkg_b', fmt, n_models, n_ap, perm[::-1], sord=case['sord'], seed=seed + 3, n_cols=2)
+        d_b = os.path.join(d, 'elsewhere')
+        os.makedirs(d_b)
+        pk_b = sp.build(d_b, 'pkg', fmt, n_models, n_ap, perm[::-1], sord=case['sord'], seed=seed + 3, n_cols=2)
         from ref import pkgwriter as _pw
-        _pw.write_parameters(pk_b['md'], pk_b['table_order'] if fmt == 'v2' else pk_b['names'], {c_: np.arange(n_models) * -1.0 - 100.0 * (i_ + 1) for i_, c_ in enumerate(pk_b['colnames'])},
+        names_b = pk_b['table_order'] if fmt == 'v2' else pk_b['names']
+        _pw.write_parameters(pk_b['md'], names_b, {c_: np.arange(n_models) * -1.0 - 100.0 * (i_ + 1) for i_, c_ in enumerate(pk_b['colnames'])},
                              order=None if fmt == 'v2' else perm[::-1])
-        convolve_model_dir(pk_b['md'], filt)
-        fb = Fitter(list(bands), theta * u.arcsec, pk_b['md'], extinction_law=law, av_range=[avlo, avhi], distance_range=np.array([dmin, dmax]) * u.kpc)
-        fb.fit(s0)
+        pardict_b = {nm_: [-1.0 * j_ - 100.0 * (i_ + 1) for i_ in range(len(pk_b['colnames']))] for j_, nm_ in enumerate(names_b)}
+        if relative:
+            os.chdir(d_b)
+        md_b = 'pkg' if relative else pk_b['md']
+        convolve_model_dir(md_b, filt)
+        fb = Fitter(list(bands), theta * u.arcsec, md_b, extinction_law=law, av_range=[avlo, avhi], distance_range=np.array([dmin, dmax]) * u.kpc)
+        info_b = fb.fit(s0)
+        lst_b = os.path.join(d, 'listing_obj_b.txt')
+        sedfitter.write_parameters(info_b, lst_b, select_format=('N', 1))
+        _, blk_b = pc.parse_write_parameters(lst_b)
+        if relative:
+            os.chdir(d)
         lst = os.path.join(d, 'listing_obj.txt')
         sedfitter.write_parameters(info_a, lst, select_format=('N', 1))
         _, blk_o = pc.parse_write_parameters(lst)
-        rec.trans(4)
-        rec.ev()
+        rec.trans(5)
+        rec.ev(2)
         rec.cls('object-result-after-other-package')
         row = blk_o[0]['rows'][0]
         if not all(pc.close_e(a_, b_) for a_, b_ in zip(row['pars'], pk['pardict'][row['model']])):
-            rec.violation('pipeline|listing|other-package', {'stage': 'object interface'}, {'problem': 'listing of a result obtained with package A shows %r for %s after package B was fitted; A says %r' % (row['pars'], row['model'], pk['pardict'][row['model']])})
+            rec.violation('pipeline|listing|other-package', {'stage': 'object interface', 'relative_paths': relative}, {'problem': 'listing of a result obtained with package A shows %r for %s after package B was fitted; A says %r' % (row['pars'], row['model'], pk['pardict'][row['model']])})
+        row_b = blk_b[0]['rows'][0]
+        if not all(pc.close_e(a_, b_) for a_, b_ in zip(row_b['pars'], pardict_b[row_b['model']])):
+            rec.violation('pipeline|listing|other-package', {'stage': 'object interface, second package', 'relative_paths': relative}, {'problem': 'listing of a result obtained with package B (used after package A%s) shows %r for %s; B says %r' % (
+                ", same relative path from another working directory" if relative else '', row_b['pars'], row_b['model'], pardict_b[row_b['model']])})
     except Exception as e:
         from mc.runner import exc_signature
         rec.violation('pipeline|object-interface|' + exc_signature(e), {'stage': 'object interface'}, {'type': type(e).__name__, 'msg': str(e)[:300]})
+    finally:
+        os.chdir(cwd0)
     if len(recs) != len(plants) or len(blocks) != len(plants):
         rec.violation('pipeline|record-count', {}, {'records': len(recs), 'listing_blocks': len(blocks), 'sources': len(plants)})
         return
